@@ -128,7 +128,31 @@ func init() {
 
 var fatalOutcome = Outcome{Panic: "fatal error: the process died executing this case (see replay)", Status: 2}
 
-func drain(f *os.File) string {
+// exitOut / exitErr: sizes of the captured streams when the program called os.Exit (-1: it did not).
+var exitOut, exitErr int64 = -1, -1
+
+func drain(f *os.File, limit int64) string {
+	n, _ := f.Seek(0, 1)
+	if n == 0 {
+		return ""
+	}
+	keep := n
+	if limit >= 0 && limit < n {
+		keep = limit // written by deferred calls after os.Exit: a real process would not have run them
+	}
+	defer func() {
+		f.Truncate(0)
+		f.Seek(0, 0)
+	}()
+	if keep == 0 {
+		return ""
+	}
+	b := make([]byte, keep)
+	f.ReadAt(b, 0)
+	return string(b)
+}
+
+func drainOld(f *os.File) string {
 	n, _ := f.Seek(0, 1)
 	if n == 0 {
 		return ""
@@ -191,6 +215,11 @@ func (o Outcome) FirstDiag() string {
 }
 
 func prep(o Opts) {
+	exitOut, exitErr = -1, -1
+	verifrt.ExitHook = func() {
+		exitOut, _ = outF.Seek(0, 1)
+		exitErr, _ = errF.Seek(0, 1)
+	}
 	verifreset.All()
 	verifrt.ResetRun()
 	verifrt.StdinData = []byte(o.Stdin)
@@ -217,8 +246,8 @@ func prep(o Opts) {
 }
 
 func finish(out *Outcome, fuel int64) {
-	out.Stdout = drain(outF)
-	out.Stderr = drain(errF)
+	out.Stdout = drain(outF, exitOut)
+	out.Stderr = drain(errF, exitErr)
 	out.Points = append([]verifrt.ChoicePoint(nil), verifrt.Points...)
 	out.BadReplay = verifrt.BadReplay
 	out.StdinReads = verifrt.StdinReads
